@@ -927,6 +927,11 @@ func (x *l2Exec) traceCopy() []string {
 
 // L2Scenario runs scenario k (l2.ScenarioFunc).
 func L2Scenario(seed int64, k int, res *l2.Result) {
+	if k >= L2QuietBase {
+		// the quiet-reconnect mirror, see l2quiet.go
+		l2QuietScenario(seed, k-L2QuietBase, res)
+		return
+	}
 	defer func() {
 		if rec := recover(); rec != nil {
 			buf := make([]byte, 1<<14)
